@@ -39,4 +39,37 @@ mod verif_search {
         if reconnect_integrity_check(&salt) != r { println!("REPLAY-FAIL c17_integrity reconnect check differs from SHA1(salt | 20 zero bytes)"); return; }
         println!("REPLAY-STATS c17_integrity inputs={} all-ok", n + 1);
     }
+
+    /// Sanity check of three stand-in assumptions of spec/prelude against the real crates (bounded): streaming updates concatenate
+    /// (sha1 chain_update, hmac update, md5 consume), HMAC accepts keys of any length, digests have the stated lengths.
+    #[test]
+    fn verif_search_prelude_streaming() {
+        let seed = std::env::var("VERIF_SEED").ok().and_then(|s| s.parse::<u64>().ok()).unwrap_or(0) ^ 0x9E3779B97F4A7C15;
+        let mut rng = Rng(seed);
+        let mut n = 0u64;
+        for _ in 0..400 {
+            let la = (rng.next() % 150) as usize; let lb = (rng.next() % 150) as usize; let lk = (rng.next() % 100) as usize;
+            let a: Vec<u8> = (0..la).map(|_| rng.next() as u8).collect();
+            let b: Vec<u8> = (0..lb).map(|_| rng.next() as u8).collect();
+            let k: Vec<u8> = (0..lk).map(|_| rng.next() as u8).collect();
+            let ab: Vec<u8> = a.iter().chain(b.iter()).copied().collect();
+            n += 1;
+            let s1: [u8; 20] = Sha1::new().chain_update(&a).chain_update(&b).finalize_fixed().into();
+            let s2: [u8; 20] = Sha1::new().chain_update(&ab).finalize_fixed().into();
+            if s1 != s2 { println!("REPLAY-FAIL prelude_streaming sha1 chain_update(a).chain_update(b) != chain_update(a|b) la={} lb={}", la, lb); return; }
+            let mut h1: Hmac<Sha1> = match Hmac::<Sha1>::new_from_slice(&k) { Ok(h) => h, Err(_) => { println!("REPLAY-FAIL prelude_streaming hmac rejects a key of {} bytes", lk); return; } };
+            h1.update(&a); h1.update(&b);
+            let mut h2: Hmac<Sha1> = Hmac::<Sha1>::new_from_slice(&k).unwrap(); h2.update(&ab);
+            let (m1, m2): ([u8; 20], [u8; 20]) = (h1.finalize_fixed().into(), h2.finalize_fixed().into());
+            if m1 != m2 { println!("REPLAY-FAIL prelude_streaming hmac update(a);update(b) != update(a|b)"); return; }
+            #[cfg(feature = "matrix-card")]
+            {
+                let mut c1 = md5::Context::new(); c1.consume(&a); c1.consume(&b);
+                let mut c2 = md5::Context::new(); c2.consume(&ab);
+                if c1.compute().0 != c2.compute().0 { println!("REPLAY-FAIL prelude_streaming md5 consume(a);consume(b) != consume(a|b)"); return; }
+            }
+        }
+        println!("REPLAY-STATS prelude_streaming inputs={} all-ok", n);
+    }
 }
+
